@@ -7,7 +7,8 @@ reference datetimes) on every node of six grids, and get_radiation_flux / get_no
 lattice of (orbital phase, daily phase, longitude, latitude incl. both poles).  Each field is compared with the
 closed-form solar geometry of mc.ref.solar: 0 <= flux <= perihelion constant, exactly zero wherever the reference sun is
 below the horizon and positive wherever it is above (nodes within a band of the terminator are counted, not
-asserted), global mean == S(t)/4 within the quadrature bound, periodicity under +-2*pi in either phase and under
+asserted), global mean == S(t)/4 within the quadrature bound 2/nlat^2 (and, sharper, with exactly the quadrature error that
+the same rule makes on the reference lit area), periodicity under +-2*pi in either phase and under
 +-1461 days of model time (negative model times included).  The range of the returned phases is finding F7 and is
 owned by C18; it is not asserted here.
 
@@ -37,7 +38,8 @@ ASSUMPTIONS = [
     'reference |sin(altitude)| is below the terminator band (1e-9, widened to 256 ulp of the unreduced phase on the 50-year lattice) '
     'are counted, not asserted',
     'global mean: Gauss weights from numpy leggauss (grid nodes are required to be the Gauss nodes), tolerance = the quadrature bound '
-    '2/min(nlat, nlon/2)^2 stated by the property design (measured worst 0.8/nlat^2), not a round-off tolerance',
+    '2/min(nlat, nlon/2)^2 stated by the property design (measured worst 0.8/nlat^2), not a round-off tolerance; the sharper form compares '
+    'mean/(S_ref/4) with the same quadrature of the reference max(0, sin altitude) to round-off',
     'Held-Suarez drag: linearity + complete basis; the l=0 and l=L-1 columns (not a curl/divergence of a resolved wind, top wavenumber '
     'of derivative outputs) are counted, not asserted',
     'Held-Suarez relaxation (p**kappa, log, maximum) is decided on the enumerated lattice only; modal comparison uses Grid.to_nodal / '
@@ -103,7 +105,7 @@ def bounds(tier):
   q = tier == 'quick'
   return dict(
       solar_grids=list(SOLAR_GRIDS), reference_datetimes={k: list(v) for k, v in REFS.items()},
-      solar_times=('every 30 min of 366 days after leap1980 + every 10 min of the 9 perihelion/equinox/solstice days for the 3 references'
+      solar_times=('every 30 min of 366 days after leap1980 (TL63, whose nodes equal those of T42, on the special days only) + every 10 min of the 9 perihelion/equinox/solstice days for the 3 references'
                    if q else 'every 10 min of 366 days after each of the 3 references + every 1447 min of 50 years (T21 and small grids)'),
       solar_variants=['radiation_flux', 'normalized'], terminator_band=BAND,
       periodicity='+-1461 days of model time on %s; +-2pi, +-4pi in orbital / daily phase on the direct lattice' % (
@@ -128,8 +130,9 @@ def units(tier, seed):
   special = list(so.SPECIAL_DAYS)
   if q:
     for g in SOLAR_GRIDS:
-      for d0 in range(0, 366, 61):
-        us.append(dict(kind='solar', grid=g, ref='leap1980', days=list(range(d0, min(366, d0 + 61))), step=30, shift_days=[]))
+      if g != 'TL63':     # same 128 x 64 nodes as T42: quick runs it on the special days only
+        for d0 in range(0, 366, 61):
+          us.append(dict(kind='solar', grid=g, ref='leap1980', days=list(range(d0, min(366, d0 + 61))), step=30, shift_days=[]))
       for r in REFS:
         us.append(dict(kind='solar', grid=g, ref=r, days=special, step=10, shift_days=special))
   else:
@@ -245,6 +248,7 @@ def _solar_chunk(S, rec, minutes, t_nd, *, shifts, tag):
   day = s >= band
   rec.note('nodes_within_terminator_band', int(s.size - np.count_nonzero(night) - np.count_nonzero(day)))
   Sref = so.irradiance(op)
+  qref = 4.0 * so.global_mean(np.maximum(s, 0.0).reshape(T, S.nlon, S.nlat), S.w) if S.gauss else None
   keys = {}
   fields = {}
 
@@ -283,6 +287,12 @@ def _solar_chunk(S, rec, minutes, t_nd, *, shifts, tag):
       i = int(np.argmax(np.abs(ratio - 1.0)))               # argmax returns the first NaN if there is one
       rec.close(ratio[i], 1.0, scale=S.qbound, C=1.0, eps=1.0, site='global_mean_is_quarter_S', key=k[i],
                 extra={'variant': variant, 'S_ref': float(Sref[i]), 'quadrature_bound': S.qbound})
+      # the same statement with the quadrature error evaluated instead of bounded: the rule applied to the reference
+      # max(0, sin altitude) on the same nodes has the error 4*Q[max(0, s)] - 1, the implementation must show exactly that one
+      psc = 1.0 + np.maximum(uo, us_)
+      i = int(np.argmax(np.abs(ratio - qref) / psc))
+      rec.close(ratio[i], qref[i], scale=psc[i], site='global_mean_over_quarter_S_is_the_quadrature_of_the_lit_area', key=k[i],
+                extra={'variant': variant, 'S_ref': float(Sref[i])})
     else:
       rec.note('global_mean_skipped_non_gauss_grid', T)
   # normalised == flux / (S0 + dS)
